@@ -8,7 +8,8 @@
 \* ASCII case is mangled on both sides (every other tag, every other range) since the relation must
 \* not depend on it.  The design-level laws of Lang.tla are checked on every pair (invariant Laws).
 EXTENDS CssDecl, TLC, Json, SequencesExt
-CONSTANTS MaxLen, Chunk
+CONSTANTS MaxLen, Chunk, EmptySubtags
+\* EmptySubtags: also ranges with empty subtags ("de-", "-", "de--x": arbitrary subtag sequences; an empty range subtag matches only an empty tag subtag)
 VARIABLES doc, st
 
 De == <<100,101>>
@@ -16,10 +17,10 @@ En == <<101,110>>
 X == <<120>>
 Latn == <<108,97,116,110>>
 TagSubs == {De, En, X, Latn}
-RangeSubs == TagSubs \cup {LangWild}
+RangeSubs == TagSubs \cup {LangWild} \cup (IF EmptySubtags THEN {<<>>} ELSE {})
 
 Strs(subs) == {Join(q, <<LangDash>>) : q \in UNION {[1..n -> subs] : n \in 1..MaxLen}} \cup {<<>>}
-Tags == SetToSeq(Strs(TagSubs))
+Tags == SetToSeq(IF EmptySubtags THEN Strs(TagSubs) \ {<<>>} ELSE Strs(TagSubs))      \* (what a range with an empty subtag means for an explicitly empty language is left open)
 Ranges == SetToSeq(Strs(RangeSubs))
 NTags == Len(Tags)
 NChunks == (NTags + Chunk - 1) \div Chunk
